@@ -79,8 +79,11 @@ def defuse_xml(fp: IOType, rewind: bool = True) -> IOType:
         for event, node in pulldom.parse(fp, parser):
             if event == pulldom.START_ELEMENT:
                 break
-    except SAXParseException:
-        pass  # the purpose is to defuse not to check xml source syntax
+    except (SAXParseException, LookupError, ValueError):
+        # The purpose is to defuse not to check xml source syntax. LookupError and
+        # ValueError (UnicodeError) are raised for an unknown or unusable encoding,
+        # that is reported as a parse error when the source is parsed.
+        pass
     except OSError as err:
         raise XMLResourceOSError(err)
 
